@@ -87,3 +87,19 @@ Proof.
   - intros inseg x. exact (potential_additive_partition g s quad kern supp inseg x pt).
 Qed.
 Print Assumptions C02_partial.
+
+(* ---- sign, normalisation and orientation of the two potentials relative to each other: the double-layer potential
+   kernel is the derivative of the single-layer potential kernel along the trial normal (tie T: kernels regenerated
+   from core/numba_kernels.py; proof in Kernels/LaplaceDerivs.v) ---- *)
+From Coq Require Import Reals.
+From Coquelicot Require Import Coquelicot.
+From BVgen Require Import NumbaKernels.
+From BV Require Import Kernels.LaplaceDerivs.
+
+Theorem C02_double_layer_potential_kernel_is_normal_derivative :
+  forall x0 x1 x2 y0 y1 y2 nx0 nx1 nx2 ny0 ny1 ny2 p0 p1 : R, (x0, x1, x2) <> (y0, y1, y2) ->
+  is_derive (fun t => laplace_single_layer_regular_re x0 x1 x2 (y0 + t * ny0) (y1 + t * ny1) (y2 + t * ny2)
+                        nx0 nx1 nx2 ny0 ny1 ny2 p0 p1)%R 0%R
+            (laplace_double_layer_regular_re x0 x1 x2 y0 y1 y2 nx0 nx1 nx2 ny0 ny1 ny2 p0 p1).
+Proof. exact laplace_dl_is_normal_derivative. Qed.
+Print Assumptions C02_double_layer_potential_kernel_is_normal_derivative.
